@@ -88,6 +88,10 @@ def with_helpers(pol):
     def policy(caller, callee, depth):
         if callee.kind != 'Closure' and callee.nname not in known:
             return True
+        if callee.kind == 'Closure' and caller.kind != 'Closure' and caller.nname not in known:
+            # a closure handed to a higher-order helper that does not exist on the reference tree (`fill_each(.., |buf,
+            # node| ..)`): seen through together with the helper
+            return True
         return bool(pol and pol(caller, callee, depth))
     return policy
 
@@ -160,10 +164,25 @@ def undo_renames(raw):
             if best[0] >= 0.5 and best[0] - second >= 0.2 and best[1] not in taken:
                 renames[best[1]] = k
                 taken.add(best[1])
-    if not renames:
+    # Move tolerance: a missing private function whose *name* reappears, exactly once, on a new private function of
+    # another container (a method turned into a free function of the module, or moved to another impl block / type) is
+    # taken to be that function; the rules then judge the moved body (parameters are found by type, and values handed
+    # in by the callers are traced - see common.value_or_param_satisfies)
+    moves = {}
+    for k in missing:
+        if k in renames.values():
+            continue
+        last = k.rsplit('::', 1)[-1]
+        cands = [n for n in new if n.rsplit('::', 1)[-1] == last and n not in renames and cont(n) != cont(k)]
+        if len(cands) == 1 and not any(m for m in missing if m != k and m.rsplit('::', 1)[-1] == last):
+            moves[cands[0]] = k
+    if not renames and not moves:
         return raw, {}
     text = json.dumps(raw)
     done = {}
+    for newn, oldn in moves.items():
+        text = re.sub(r'"%s(?=[":<])' % re.escape(newn), '"' + oldn, text)
+        done[newn] = oldn
     for newn, oldn in renames.items():
         a, b_ = newn.rsplit('::', 1)[-1], oldn.rsplit('::', 1)[-1]
         # the new last segment must not name anything else in the crate
